@@ -40,7 +40,10 @@ fn c04_q_frame_header_any_byte_count() {
 #[kani::stub(alloc::fmt::format, crate::vklib::empty_format)]
 fn c04_q_chunk_header_any() {
     let buf: [u8; 12] = kani::any();
+    // the byte budget a caller can hold: the frame's declared byte count (u32) minus the 16 header bytes, minus the
+    // sizes of chunks already read (each of which fitted): -16 ..= 2^32 - 17
     let mut budget: i64 = kani::any();
+    kani::assume(budget >= -16 && budget <= 0xffff_ffff - 16);
     let size = rd32(&buf, 0);
     kani::assume(size <= 12); // payload allocation stays small; larger declared sizes are C12's subject
     let mut reader = AseReader::with(&buf[..]);
@@ -91,6 +94,7 @@ pub(crate) fn stub_read_all_none<R: Read>(_count: u32, _bytes_available: i64, _r
 fn c04_q_read_all_any_count() {
     let count: u32 = kani::any();
     let budget: i64 = kani::any();
+    kani::assume(budget >= -16 && budget <= 0xffff_ffff - 16); // what parse_frame can pass
     let tail: [u8; 3] = kani::any();
     let mut reader = AseReader::with(&tail[..]);
     let r = Chunk::read_all(count, budget, &mut reader);
@@ -99,6 +103,6 @@ fn c04_q_read_all_any_count() {
         Err(_) => assert!(count > 0, "declared chunks that are not there are an error value"),
     }
     kani::cover!(count == u32::MAX);
-    kani::cover!(count == 0 && budget < 0);
+    kani::cover!(count == 0 && budget == -16);
     core::mem::forget(r);
 }
